@@ -89,6 +89,9 @@ pub assume_specification<T, F: FnOnce(T) -> bool>[ Option::<T>::is_some_and ](o:
     ensures o is None ==> !r, o is Some ==> call_ensures(f, (o->0,), r);
 impl BlobFile {
     fn id(&self) -> (r: u64) ensures r == self.0.id { self.0.id }
+    /// BlobFile::is_stale compares an f32 ratio with a threshold: floating point is not modelled, so nothing is known about its result
+    #[verifier::external_body]
+    fn is_stale(&self, frag_map: &FragmentationMap, threshold: f32) -> bool { false }
 //@ FROM src/vlog/blob_file/mod.rs :: impl BlobFile :: fn is_dead :: OBL C09.3
     fn is_dead(&self, frag_map: &FragmentationMap) -> /*+*/(r: /*-*/bool/*+*/)
         // C09.3: dead <=> an entry exists and its garbage bytes equal the file's total uncompressed bytes (exact, no rounding)
